@@ -937,7 +937,7 @@ func HelperCallsOf(fn *ssa.Function) []HelperCall {
 		if !ok {
 			return
 		}
-		callee := call.Call.StaticCallee()
+		callee := Generic(call.Call.StaticCallee())
 		if callee == nil || callee.Blocks == nil || callee.Pkg == nil || callee.Parent() != nil || !strings.HasPrefix(callee.Pkg.Pkg.Path(), ModulePath) {
 			return
 		}
